@@ -1868,7 +1868,7 @@ def main(chk: C.Check, build: C.Build) -> None:
         with open(os.environ["C20_DUMP"], "w") as f:
             json.dump([it["case"] for it in run.items], f)
     if run.items and not os.environ.get("C20_NOCOQ"):
-        C.correspond(chk, "c20", IMPORTS, DEFS, run.items, what="literals", shard=max(300, len(run.items) // max(1, min(16, C.JOBS)) + 1))
+        C.correspond(chk, "c20", IMPORTS, DEFS, run.items, what="literals", shard=min(2000, max(300, len(run.items) // max(1, min(16, C.JOBS)) + 1)))
     lap("coq")
     C.proofs_verdict(chk, proofs_ok)
 
